@@ -39,6 +39,10 @@ func nonNegByGuard(p *core.Program, v ssa.Value) (bool, string) {
 		}
 		return true, "every incoming value is a non-negative constant or guarded by a sign test"
 	case *ssa.Call:
+		// max(..., c) with a non-negative constant c is non-negative whatever the other operands are
+		if isClampAtZero(x) {
+			return true, "max(·, non-negative constant)"
+		}
 		// a custom single-valued helper whose every return is itself non-negative by guard
 		if callee := x.Call.StaticCallee(); callee != nil && callee.Blocks != nil {
 			n := 0
@@ -492,6 +496,18 @@ func recurrenceShape(p *core.Program, fn *ssa.Function) (bool, string) {
 			if lf == ssa.Value(trunc) {
 				continue
 			}
+			// max(trunc, 0): the clamp written with the builtin
+			if mc, ok := lf.(*ssa.Call); ok && isClampAtZero(mc) {
+				onlyTrunc := true
+				for _, a := range mc.Call.Args {
+					if _, isC := a.(*ssa.Const); !isC && a != ssa.Value(trunc) {
+						onlyTrunc = false
+					}
+				}
+				if onlyTrunc {
+					continue
+				}
+			}
 			if c, ok := lf.(*ssa.Const); ok && c.Value != nil && c.Value.ExactString() == "0" {
 				continue
 			}
@@ -499,4 +515,18 @@ func recurrenceShape(p *core.Program, fn *ssa.Function) (bool, string) {
 		}
 	}
 	return true, "trunc(prev − decrease/blocksPerYear)"
+}
+
+// isClampAtZero: a call of the builtin max one of whose operands is a non-negative constant.
+func isClampAtZero(c *ssa.Call) bool {
+	b, ok := c.Call.Value.(*ssa.Builtin)
+	if !ok || b.Name() != "max" {
+		return false
+	}
+	for _, a := range c.Call.Args {
+		if k, isC := a.(*ssa.Const); isC && k.Value != nil && !strings.HasPrefix(k.Value.ExactString(), "-") {
+			return true
+		}
+	}
+	return false
 }
